@@ -184,6 +184,10 @@ def run_scenario(scn, keep_world=False):
     W.install_seams()
     import pybads
     from pybads import BADS
+    if scn.get("pre"):
+        # process history before the monitored run (other optimisations etc.), outside any world
+        from . import historyops
+        historyops.execute(scn["pre"])
     w = World(scn)
     rec = {"outcome": None}
     W.set_world(w)
@@ -241,6 +245,22 @@ def _run(scn, w, rec, BADS):
     args = build_args(scn, w)
     # ---------------- construction
     w.phase = "ctor"
+    if scn.get("reuse_arrays"):
+        # a multi-start loop: an earlier instance was built from the very same caller-owned arrays
+        try:
+            first = BADS(**args)
+            if scn["reuse_arrays"] == "run":
+                W.set_world(None)
+                try:
+                    BADS(lambda x: float(np.sum(np.asarray(x) ** 2)), args["x0"], args["lower_bounds"], args["upper_bounds"],
+                         args["plausible_lower_bounds"], args["plausible_upper_bounds"],
+                         options=dict(display="off", max_fun_evals=12, random_seed=1)).optimize()
+                finally:
+                    W.set_world(w)
+            del first
+        except ValueError:
+            pass
+        w.ev("reuse_arrays")
     try:
         b = BADS(**args)
     except ValueError as e:
